@@ -3,7 +3,7 @@
 tags) and compare test by test with /root/.vp/BASELINE.json stable_pass."""
 import json, os, subprocess, sys
 env = dict(os.environ, GOFLAGS="-mod=mod", GOPROXY="off", GOSUMDB="off", GOTOOLCHAIN="local")
-p = subprocess.run(["go", "test", "-json", "-vet=off", "-count=1", "-timeout", "25m", "./..."],
+p = subprocess.run(["go", "test", "-json", "-vet=off", "-count=1", "-timeout", os.environ.get("BASELINE_TIMEOUT", "25m"), "./..."],
                    cwd=os.environ.get("REPO_DIR","/repo"), env=env, capture_output=True, text=True)
 res = {}
 for l in p.stdout.splitlines():
